@@ -30,7 +30,8 @@ from engine import build, shim
 
 LEAF_CLASSES = ["Affine", "Loc", "Scale", "TriangularAffine", "Exp", "SoftPlus", "Tanh", "LeakyTanh", "Identity", "Flip",
                 "Permute", "RationalQuadraticSpline", "RationalQuadraticSplineOffCentre", "PlanarLeaky", "PlanarTanh", "AdditiveCondition", "Coupling",
-                "CouplingSpline", "MaskedAutoregressive", "MaskedAutoregressiveSpline", "BlockAutoregressiveNetwork", "BlockAutoregressiveNetworkDeep",
+                "CouplingSpline", "MaskedAutoregressive", "MaskedAutoregressiveSpline", "MaskedAutoregressiveExp", "MaskedAutoregressiveWide",
+                "BlockAutoregressiveNetwork", "BlockAutoregressiveNetworkDeep",
                 "VmapSpline", "Reshape", "EmbedCondition"]
 ONTO = ["Affine", "LeakyTanh", "VmapSpline", "Loc", "Flip"]          # leaves that are bijections of R^n onto R^n
 FORWARD = ["Affine", "LeakyTanh", "VmapSpline", "Tanh", "SoftPlus", "Exp", "Scale"]
@@ -99,6 +100,12 @@ def leaf(cls, shape, rs, regime, key):
         tr = bj.Affine() if cls == "MaskedAutoregressive" else bj.RationalQuadraticSpline(knots=3, interval=2)
         b = bj.MaskedAutoregressive(key, transformer=tr, dim=shape[0], cond_dim=2, nn_width=5, nn_depth=1)
         return perturb(b, rs, max(sc, 0.4))
+    if cls == "MaskedAutoregressiveExp":         # a transformer whose image depends on its parameters
+        b = bj.MaskedAutoregressive(key, transformer=bj.Chain([bj.Exp(), bj.Affine()]), dim=shape[0], cond_dim=None, nn_width=6, nn_depth=1)
+        return perturb(b, rs, max(sc, 0.3))
+    if cls == "MaskedAutoregressiveWide":        # many coordinates, weights far from initialisation
+        b = bj.MaskedAutoregressive(key, transformer=bj.Affine(), dim=shape[0], cond_dim=2, nn_width=shape[0] + 2, nn_depth=1)
+        return perturb(b, rs, [0.5, 2.0, 6.0, 12.0][var])
     if cls == "BlockAutoregressiveNetwork":
         b = bj.BlockAutoregressiveNetwork(key, dim=shape[0], cond_dim=None, depth=1, block_dim=2)
         return perturb(b, rs, sc * 0.5)
@@ -115,7 +122,7 @@ def leaf(cls, shape, rs, regime, key):
 
 DEFAULT_SHAPE = {"TriangularAffine": (3,), "PlanarLeaky": (3,), "PlanarTanh": (3,), "Coupling": (3,), "CouplingSpline": (3,),
                  "MaskedAutoregressive": (3,), "MaskedAutoregressiveSpline": (3,), "BlockAutoregressiveNetwork": (2,),
-                 "BlockAutoregressiveNetworkDeep": (2,),
+                 "BlockAutoregressiveNetworkDeep": (2,), "MaskedAutoregressiveExp": (3,), "MaskedAutoregressiveWide": (12,),
                  "RationalQuadraticSpline": (), "RationalQuadraticSplineOffCentre": (), "Reshape": (2, 2), "VmapSpline": (3,)}
 
 
@@ -337,8 +344,10 @@ def specs(tier: str, seed: int, tlc_cases: list | None = None):
         if cls in ("Affine", "Reshape", "LeakyTanh", "RationalQuadraticSpline", "RationalQuadraticSplineOffCentre", "VmapSpline",
                    "BlockAutoregressiveNetworkDeep"):
             regimes.append("negscale")
-        if cls == "BlockAutoregressiveNetworkDeep":
+        if cls in ("BlockAutoregressiveNetworkDeep", "MaskedAutoregressiveWide"):
             regimes.append("wild")
+        if cls == "MaskedAutoregressiveWide":
+            regimes.append("negscale")
         for reg in regimes:
             for rep_ in range(2 if thorough else 1):
                 out.append({"src": "leaf", "cls": cls, "regime": reg, "seed": rng.randrange(2**30)})
